@@ -264,7 +264,28 @@ def _feature_counts(scs):
 
 def replay_outcome(prop, ctx, also=()):
     sc = ctx.replay['replay']['scenario']
+    if sc.get('real'):
+        return validate(prop, [], ctx, also=also, extra_traces=run_real_scenarios([sc], ctx))
     return validate(prop, [sc], ctx, also=also)
+
+
+def run_real_scenarios(scs, ctx, parallel=4):
+    """Real OS processes and sockets (harness/rtreal.py); returns [(trace, diag, scenario)]."""
+    from concurrent.futures import ThreadPoolExecutor
+    from harness import rtreal
+    common.use_repo()
+    out = []
+    # the interpreter's tables are module globals: real runs are executed one after another in this process,
+    # their start-up (process spawn + imports) is what takes the time
+    for sc in scs:
+        sc = dict(sc)
+        sc['real'] = True
+        try:
+            tr, dg = rtreal.run_real(sc, ctx.scratch)
+            out.append((tr, dg, sc))
+        except Exception as e:
+            raise MachineryError('real-process run failed: %r' % (e,))
+    return out
 
 
 def topologies(rng, quick):
